@@ -37,7 +37,7 @@ def run(model, rep, tier):
         fn = ci.methods.get(m)
         if fn is None:
             raise AnalysisError('anchor vanished: ClusterSupercell.%s' % m)
-        g = [n for n in walk_local(fn) if isinstance(n, ast.If) and pattern.has(n.test, '_N_c.__vacancy__', 'expr') and n.orelse]
+        g = [n for n in walk_local(fn) if isinstance(n, ast.If) and isinstance(n.test, ast.Attribute) and n.test.attr == '__vacancy__' and n.orelse]
         if len(g) != 1:
             raise AnalysisError('ClusterSupercell.%s: vacancy-cluster guard not found' % m)
         cvar = unparse(g[0].test.value)
@@ -112,7 +112,8 @@ def run(model, rep, tier):
     from ._common import conditions_at, update_of
     ok = False
     for lp in [x for x in walk_local(E) if isinstance(x, ast.For)]:
-        if unparse(lp.iter) != 'zip(self.clustercount[:self.Nenergy], self.interactvalue[:self.Nenergy])' \
+        from ._common import resolve_local
+        if unparse(resolve_local(E, lp.iter)) != 'zip(self.clustercount[:self.Nenergy], self.interactvalue[:self.Nenergy])' \
                 or not (isinstance(lp.target, ast.Tuple) and len(lp.target.elts) == 2):
             continue
         c_, v_ = [unparse(t) for t in lp.target.elts]
